@@ -546,12 +546,15 @@ type recOut struct {
 	stallAt  int           // the stallAt-th write (1-based) blocks for stallFor: a momentary stall of stdout
 	stallFor time.Duration
 	onWrite func(k int)
+	inflight int32 // Write calls in progress (a process that exits now leaves their record cut short)
 	mu      sync.Mutex
 	writes  [][]byte
 	seqs    []int64
 }
 
 func (o *recOut) Write(p []byte) (int, error) {
+	atomic.AddInt32(&o.inflight, 1)
+	defer atomic.AddInt32(&o.inflight, -1)
 	cp := append([]byte(nil), p...)
 	if o.delay > 0 {
 		time.Sleep(o.delay)
